@@ -110,7 +110,7 @@ PROPS = {
         assumptions=["chunk >= 1", "position() not wrapped"]),
     "C09": dict(
         module="Flussab.Props.C09", modules=["Flussab.Props.C09", "Flussab.Props.C09Parsers", "Flussab.Props.C09Btor2", "Flussab.Props.C09Aiger"],
-        engines=[("aiger", 1500, 50000, "ls"), ("reader", 4000, 150000, ""), ("cnf", 2500, 80000, "ls"), ("btor2", 1500, 50000, "ls"), ("reader", 470, 1050, "scale"), ("cnf", 270, 600, "scale"), ("btor2", 24, 120, "scale:ls")], release=True,
+        engines=[("aiger", 1500, 50000, "ls"), ("reader", 4000, 150000, ""), ("cnf", 2500, 80000, "ls"), ("btor2", 1500, 50000, "ls"), ("reader", 470, 1050, "scale"), ("cnf", 270, 600, "scale"), ("btor2", 24, 120, "scale:ls"), ("aiger", 40, 300, "scale:ls")], release=True,
         claim="Reader layer proved for all histories and schedules: exactly one non-Interrupted read per refill "
               "(one_read_per_refill), no read when buffered data satisfies the request (no_read_if_satisfied), no "
               "call after EOF/error (no_read_after_end, never_called_after_end), reads are demand driven "
@@ -192,7 +192,7 @@ PROPS = {
         assumptions=["the sink obeys the Write contract (accepts at most the slice length)"]),
     "C01": dict(
         module="Flussab.Props.C01", modules=["Flussab.Props.C01", "Flussab.Props.C01Btor2"],
-        engines=[("aiger", 3000, 150000, "rt+layout+mutate+arbitrary+utf8+huge"), ("cnf", 4000, 200000, "mix"), ("btor2", 3000, 150000, "rt+layout+kinds+mutate+arbitrary+kw"), ("reader", 1500, 50000, ""), ("btor2", 160, 640, "scale"), ("cnf", 270, 2600, "scale"), ("reader", 470, 1050, "scale")], release=True,
+        engines=[("aiger", 3000, 150000, "rt+layout+mutate+arbitrary+utf8+huge"), ("cnf", 4000, 200000, "mix"), ("btor2", 3000, 150000, "rt+layout+kinds+mutate+arbitrary+kw"), ("reader", 1500, 50000, ""), ("btor2", 160, 640, "scale"), ("cnf", 270, 2600, "scale"), ("reader", 470, 1050, "scale"), ("aiger", 40, 300, "scale")], release=True,
         audit_observables=True,
         bv_decide_theorems=["multi_scanners_buffer_independent", "btor2_lowercase_kernel", "btor2_lowercase_kernel_no_panic",
                             "btor2_lowercase_eq_spec", "btor2_lowercase_buffer_independent", "btor2_lowercase_eq_spec_const"],
@@ -211,7 +211,7 @@ PROPS = {
              "(+ bv_decide axioms through C13), harness, audit that format code uses only the modelled reader API.",
         assumptions=["chunk >= 1", "position() not wrapped"]),
     "C10": dict(
-        module="Flussab.Props.C10", engines=[("stream", 12, 60, ""), ("reader", 1500, 40000, ""), ("reader", 470, 1050, "scale")], release=True,
+        module="Flussab.Props.C10", engines=[("stream", 12, 60, ""), ("reader", 1500, 40000, ""), ("reader", 470, 1050, "scale"), ("stream", 40, 150, "scale")], release=True,
         claim="The logic part is a theorem about the reader's bookkeeping: through ANY history whose requests demand "
               "at most K bytes of look-ahead and whose chunk size stays <= C, the buffer length (Vec::len set by "
               "resize/truncate) stays <= 3*C + K (buf_len_bounded), independent of the number of bytes streamed - "
@@ -223,7 +223,7 @@ PROPS = {
              "model side merely predicts the item count. Trusted: Lean kernel, harness, counting allocator.",
         assumptions=["chunk >= 1", "honest source"]),
     "C06": dict(
-        module="Flussab.Props.C06", modules=["Flussab.Props.C06", "Flussab.Props.C06Cnf", "Flussab.Props.C06Aiger", "Flussab.Props.C06Btor2"], engines=[("aiger", 4000, 150000, "rt+layout+mutate+huge+corrupt"), ("cnf", 6000, 200000, "layout+rt+mutate+arbitrary+corrupt+corrupt+log+logmut"), ("cnf", 270, 600, "scale")], release=True,
+        module="Flussab.Props.C06", modules=["Flussab.Props.C06", "Flussab.Props.C06Cnf", "Flussab.Props.C06Aiger", "Flussab.Props.C06Btor2"], engines=[("aiger", 4000, 150000, "rt+layout+mutate+huge+corrupt"), ("cnf", 6000, 200000, "layout+rt+mutate+arbitrary+corrupt+corrupt+log+logmut"), ("cnf", 270, 600, "scale"), ("aiger", 40, 300, "scale:valid")], release=True,
         bv_decide_theorems=[],
         claim="Numbers: every number token is produced by the decimal scanners, which return the exact decimal value "
               "of the digit run or None (C13) - restated at token level (unsigned_token_exact, signed_token_exact: a "
@@ -244,7 +244,7 @@ PROPS = {
         assumptions=["64-bit usize/isize"]),
     "C03": dict(
         module="Flussab.Props.C03Cnf", modules=["Flussab.Props.C03Aiger", "Flussab.Props.C03AigerConverse", "Flussab.Props.C03Cnf", "Flussab.Props.C03Btor2"],
-        engines=[("aiger", 3000, 120000, "rt+layout"), ("cnf", 3000, 120000, "rt+layout"), ("btor2", 3000, 120000, "rt+rtbad+layout+kinds+valid"), ("btor2", 0, 0, "validx"), ("btor2", 96, 400, "scale:just_rt+sym+cmt+const+num+lines+ws_valid+valid"), ("cnf", 270, 600, "scale")], release=True,
+        engines=[("aiger", 3000, 120000, "rt+layout"), ("cnf", 3000, 120000, "rt+layout"), ("btor2", 3000, 120000, "rt+rtbad+layout+kinds+valid"), ("btor2", 0, 0, "validx"), ("btor2", 96, 400, "scale:just_rt+sym+cmt+const+num+lines+ws_valid+valid"), ("cnf", 270, 600, "scale"), ("aiger", 40, 300, "scale:valid")], release=True,
         claim="Theorems over the parser and writer models: cnf_roundtrip (CNF/WCNF/GCNF, every literal type, both "
               "ignore_header settings: parse(write(h, cs)) = (h, cs, clean end) for every value in the explicit "
               "decidable domain WF), cnf_parsed_is_wf + cnf_parse_write_parse (whatever is accepted is in WF, hence "
@@ -267,7 +267,7 @@ PROPS = {
         assumptions=["document shorter than 2^64 - 1 bytes"]),
     "C04": dict(
         module="Flussab.Props.C04", modules=["Flussab.Props.C04", "Flussab.Props.C04Prefix", "Flussab.Props.C04Btor2", "Flussab.Props.C04Aiger", "Flussab.Props.C04AigerPrefix"],
-        engines=[("aiger", 2000, 60000, "fault"), ("aiger", 2, 300, "sweep"), ("cnf", 3000, 100000, "fault+logfault"), ("cnf", 25, 1500, "sweep"), ("btor2", 2000, 60000, "fault"), ("btor2", 15, 600, "sweep"), ("btor2", 24, 120, "scale:fault"), ("cnf", 270, 600, "scale")], release=True,
+        engines=[("aiger", 2000, 60000, "fault"), ("aiger", 2, 300, "sweep"), ("cnf", 3000, 100000, "fault+logfault"), ("cnf", 25, 1500, "sweep"), ("btor2", 2000, 60000, "fault"), ("btor2", 15, 600, "sweep"), ("btor2", 24, 120, "scale:fault"), ("cnf", 270, 600, "scale"), ("aiger", 40, 300, "scale:fault")], release=True,
         claim="Theorems for every byte string and every fault offset (the view delivers b then fails): "
               "cnf_fault_never_clean_end / log_fault_never_ok / btor2_fault_final (a failing source is never reported "
               "as completely parsed), cnf_fault_syntax_only_before_end / btor2_fault_syntax_before_end (a syntax error "
@@ -294,7 +294,7 @@ PROPS = {
         assumptions=["input shorter than 2^63 bytes"]),
     "C05": dict(
         module="Flussab.Props.C05", modules=["Flussab.Props.C05Aiger", "Flussab.Props.C05", "Flussab.Props.C05Btor2"],
-        engines=[("aiger", 4000, 150000, "mutate+arbitrary+utf8+huge+corrupt"), ("cnf", 5000, 250000, "mutate+arbitrary+corrupt+logmut+layout"), ("btor2", 4000, 150000, "mutate+arbitrary+corrupt+kw"), ("btor2", 160, 640, "scale"), ("cnf", 270, 2600, "scale")],
+        engines=[("aiger", 4000, 150000, "mutate+arbitrary+utf8+huge+corrupt"), ("cnf", 5000, 250000, "mutate+arbitrary+corrupt+logmut+layout"), ("btor2", 4000, 150000, "mutate+arbitrary+corrupt+kw"), ("btor2", 160, 640, "scale"), ("cnf", 270, 2600, "scale"), ("aiger", 40, 300, "scale")],
         release=True,
         claim="Every Rust panic site is an explicit value in the models (advance / slice beyond scanned data, column "
               "underflow, from_utf8().unwrap(), line_at_offset overflow, NonZeroU64::new(0).unwrap(), loop fuel). "
@@ -328,7 +328,7 @@ PROPS = {
         assumptions=["document shorter than 2^64 - 1 bytes"]),
     "C08": dict(
         module="Flussab.Props.C08", modules=["Flussab.Props.C08", "Flussab.Props.C08Btor2", "Flussab.Props.C08Aiger"],
-        engines=[("aiger", 4000, 150000, "corrupt+mutate+arbitrary+utf8"), ("cnf", 5000, 250000, "corrupt+mutate+arbitrary+logmut"), ("btor2", 4000, 150000, "corrupt+mutate+arbitrary"), ("btor2", 112, 480, "scale:ws_nl+ws_mix+just_err+num+sym+cmt+const+lines+ls"), ("cnf", 270, 600, "scale")], release=True,
+        engines=[("aiger", 4000, 150000, "corrupt+mutate+arbitrary+utf8"), ("cnf", 5000, 250000, "corrupt+mutate+arbitrary+logmut"), ("btor2", 4000, 150000, "corrupt+mutate+arbitrary"), ("btor2", 112, 480, "scale:ws_nl+ws_mix+just_err+num+sym+cmt+const+lines+ls"), ("cnf", 270, 600, "scale"), ("aiger", 40, 300, "scale:err")], release=True,
         claim="Range, for every input and both source kinds: cnf_error_in_range, log_error_in_range, "
               "btor2_error_in_range - a reported (line, col) satisfies 1 <= line <= nlines+1 and 1 <= col <= "
               "lineLen(line)+1 (lines as the property counts them), from the invariant 'line = 1 + newlines before "
